@@ -120,7 +120,7 @@ def true_maxcv(b, x, nl_values, bounds_consistent=True):
     return float(np.max(allv)), slack
 
 
-def user_point(b, scale_opt, x_int):
+def user_point(b, scale_opt, x_int, project=True):
     """The documented map from the solver's internal (reduced, scaled)
     variables to the user's: variables with lb = ub (to rounding) are held at
     that value; with scale=True and all remaining bounds finite the others
@@ -148,4 +148,6 @@ def user_point(b, scale_opt, x_int):
         full[~fixed] = x_int * (0.5 * (ru - rl)) + 0.5 * (ru + rl)
     else:
         full[~fixed] = x_int
+    if not project:
+        return full
     return np.clip(full, lb, ub)
